@@ -461,3 +461,19 @@ Definition adapt (km : keymap) (news : list key) : keymap :=
   dupdate key_eqb km
     (flat_map (fun x => x)
        (mapi (fun i new => match dget rix_eqb bp (RAt i) with Some r => [(new, r)] | None => [] end) news)).
+
+(* ================= spec side ================= *)
+(* the names a column can be stored under in the [names] dict of _generate_columns_plus_names *)
+Definition effnames (c : cdesc) : list nm :=
+  match d_tq c with Some (n, _) => [n] | None => [] end ++
+  match d_nonanon c with Some (n, _) => [n] | None => [] end ++
+  match d_exprlabel c with Some e => [e] | None => [] end.
+Definition anonnames (c : cdesc) : list nm := [d_anon_name c; d_anon_tq c].
+Definition allnames (c : cdesc) : list nm := effnames c ++ anonnames c.
+
+(* an anonymous label "%(hash name)s" belongs to one column identity: it is not a name of a selected
+   column with another hash (the code asserts this in _generate_columns_plus_names) *)
+Definition anon_labels_private (cols : list cdesc) : Prop :=
+  forall c c' n, In c cols -> In c' cols -> In n (anonnames c) -> In n (allnames c') -> d_hash c' = d_hash c.
+
+Definition is_obj (k : key) : bool := match k with KO _ => true | _ => false end.
